@@ -308,6 +308,8 @@ func rulesC05(c *Ctx) {
 	c.scannedLocalsReachResult("R8", "GetMeltQuote", "GetMeltQuoteByPaymentRequest")
 	c.ruleUnlockCallers("R9")
 	c.ruleResolveBeforeAnswer("R5")
+	R.Rule("R12", "a melt quote outlives its payment: no statement of the module deletes or replaces rows of melt_quotes (a PENDING quote that disappears can never adopt the Lightning outcome, its inputs stay locked or a late success is never recorded)", 1)
+	c.ruleNoEraseTable("R12", "melt_quotes", "melt quotes are never deleted", false)
 	R.Rule("R11", "what is released / marked spent: in the melt operation the request's inputs (their Ys), in the poll every row the pending table holds for the quote's id (Y for the release, the proof rebuilt field by field for the spent table)", 8)
 	c.ruleMeltEffectOperands("R11")
 	R.Rule("R10", "the melt answer reports what was stored: after a successful melt-quote write the returned quote carries the written state and preimage (operation, poll, internal settlement and helpers new on this tree)", 8)
